@@ -11,6 +11,7 @@ data those functions read (`_expected`, `_error_acceptable`, `bits`,
 function defined anywhere in the MRO (`extras`).
 
 -> lean/DaliVerif/Gen/Responses.lean"""
+from common import exc_name  # noqa: E402
 import enum
 import importlib
 import pkgutil
@@ -158,7 +159,7 @@ def import_all():
             try:
                 importlib.import_module(pkg.__name__ + "." + m.name)
             except Exception as e:  # noqa
-                failed.append("%s.%s: %s" % (pkg.__name__, m.name, type(e).__name__))
+                failed.append("%s.%s: %s" % (pkg.__name__, m.name, exc_name(e)))
     return failed
 
 
